@@ -52,8 +52,25 @@ def simulate(choices, main, strategy=("rtb",), netcfg=None, trace_files=None, tr
         out = {"kind": "cap", "report": c.report, "livelock": c.livelock}
     except core.SimKilled:
         out = {"kind": "error", "detail": "SimKilled escaped"}
-    except BaseException:
+    except BaseException as e:
         out = {"kind": "error", "detail": traceback.format_exc()}
+        # An exception that was raised inside the code under test and that the workload did not expect is an observable
+        # difference in behaviour (on the unchanged tree no run ends this way), not a defect of the harness: report it as
+        # a violation.  Exceptions raised by harness code itself stay harness errors (exit 2).
+        try:
+            if isinstance(e, Exception):
+                tb = e.__traceback__
+                last = None
+                while tb is not None:
+                    last = tb.tb_frame.f_code.co_filename
+                    tb = tb.tb_next
+                root = os.path.join(os.environ.get("VERIF_REPO", "/repo"), "rpyc") + os.sep
+                if last and os.path.abspath(last).startswith(os.path.abspath(root)):
+                    out = {"kind": "violation", "cls": "escaped-exception/" + type(e).__name__, "sig": None,
+                           "detail": "an operation of the workload raised %s out of the library: %s | %s" % (
+                               type(e).__name__, str(e)[:200], " <- ".join(ln.strip() for ln in traceback.format_tb(e.__traceback__)[-3:])[:600])}
+        except Exception:
+            pass
     if sim.leaked:
         out = {"kind": "error", "detail": "leaked %d task threads" % sim.leaked}
     return out, sim
@@ -153,7 +170,34 @@ def _chunk(pid, tier, base_seed, idxs, wall_per_run, selfcheck):
     return agg
 
 
-def _init_worker(counter=None):
+def _idle_cpus():
+    """the CPUs this process may use, idlest first (other checks may be running and have pinned their workers already)"""
+    allowed = sorted(os.sched_getaffinity(0))
+
+    def snap():
+        out = {}
+        try:
+            for ln in open("/proc/stat"):
+                if ln.startswith("cpu") and ln[3].isdigit():
+                    f = ln.split()
+                    vals = [int(x) for x in f[1:9]]
+                    out[int(f[0][3:])] = (vals[3] + vals[4], sum(vals))
+        except Exception:
+            pass
+        return out
+    a = snap()
+    time.sleep(0.1)
+    b = snap()
+    busy = {}
+    for cpu in allowed:
+        if cpu in a and cpu in b and b[cpu][1] > a[cpu][1]:
+            busy[cpu] = 1.0 - (b[cpu][0] - a[cpu][0]) / float(b[cpu][1] - a[cpu][1])
+        else:
+            busy[cpu] = 0.0
+    return sorted(allowed, key=lambda cpu: (round(busy[cpu], 1), cpu))
+
+
+def _init_worker(counter=None, cpus=None):
     # workers never inherit a tracer; each is pinned to one CPU: baton hand-offs between the threads of a
     # worker are then same-core context switches (measured: 16 unpinned workers ~4.7x one worker, pinned ~16x)
     sys.settrace(None)
@@ -162,7 +206,7 @@ def _init_worker(counter=None):
             with counter.get_lock():
                 n = counter.value
                 counter.value += 1
-            cpus = sorted(os.sched_getaffinity(0))
+            cpus = cpus or sorted(os.sched_getaffinity(0))
             os.sched_setaffinity(0, {cpus[n % len(cpus)]})
         except Exception:
             pass
@@ -184,50 +228,75 @@ def fanout(pid, tier, base_seed, nruns, workers, chunk, wall_per_run=120, wall_b
             _merge(total, _chunk(pid, tier, base_seed, c, wall_per_run, selfcheck))
         total["wall"] = time.time() - t0
         return total
-    counter = ctx.Value("i", 0)
-    ex = ProcessPoolExecutor(max_workers=workers, mp_context=ctx, initializer=_init_worker, initargs=(counter,))
-    broken = False
-    try:
+    # a worker that dies (killed from outside, watchdog on an overloaded machine) does not end the batch: the pool is rebuilt and
+    # the chunks that were in flight are run again - every run is a function of its seed, so nothing is lost or counted twice.
+    # Only a chunk that kills its worker repeatedly is reported (harness error, exit 2).
+    pending = list(idx_chunks)
+    attempts = {}
+    restarts = 0
+    fatal = False
+    while pending and not fatal:
+        cpus = _idle_cpus()
+        counter = ctx.Value("i", 0)
+        ex = ProcessPoolExecutor(max_workers=workers, mp_context=ctx, initializer=_init_worker, initargs=(counter, cpus))
+        broken = False
         futs = {}
-        pending = list(idx_chunks)
         inflight = set()
-        while (pending or inflight) and not broken:
-            while pending and len(inflight) < workers * 2:
-                if wall_budget and time.time() - t0 > wall_budget:
-                    total["harness"].append("wall budget reached; %d chunks not started" % len(pending))
-                    pending = []
+        try:
+            while (pending or inflight) and not broken:
+                while pending and len(inflight) < workers * 2:
+                    if wall_budget and time.time() - t0 > wall_budget:
+                        total["harness"].append("wall budget reached; %d chunks not started" % len(pending))
+                        pending = []
+                        break
+                    c = pending.pop(0)
+                    f = ex.submit(_chunk, pid, tier, base_seed, c, wall_per_run, selfcheck)
+                    futs[f] = c
+                    inflight.add(f)
+                if not inflight:
                     break
-                c = pending.pop(0)
-                f = ex.submit(_chunk, pid, tier, base_seed, c, wall_per_run, selfcheck)
-                futs[f] = c
-                inflight.add(f)
-            if not inflight:
-                break
-            done = None
-            try:
-                for f in as_completed(list(inflight), timeout=wall_per_run * 2 + 60):
-                    done = f
-                    break
-            except Exception as e:      # timeout
-                total["errors"].append({"detail": "worker timeout: %r" % (e,)})
-                broken = True
-                break
-            inflight.discard(done)
-            try:
-                _merge(total, done.result())
-            except BaseException as e:
-                total["errors"].append({"detail": "worker died on chunk %s: %r" % (futs[done][:3], e)})
-                broken = True
-    finally:
-        procs = list((getattr(ex, "_processes", None) or {}).values())
-        ex.shutdown(wait=not broken, cancel_futures=True)
-        if broken:
-            for p in procs:
+                done = None
                 try:
-                    if p.is_alive():
-                        p.kill()
-                except Exception:
-                    pass
+                    for f in as_completed(list(inflight), timeout=wall_per_run * 2 + 60):
+                        done = f
+                        break
+                except Exception as e:      # timeout
+                    total["harness"].append("no chunk finished within %ds: %r" % (wall_per_run * 2 + 60, e))
+                    broken = True
+                    break
+                inflight.discard(done)
+                try:
+                    _merge(total, done.result())
+                except BaseException as e:
+                    c = futs[done]
+                    attempts[c[0]] = attempts.get(c[0], 0) + 1
+                    total["harness"].append("worker died on chunk %s (attempt %d): %r" % (c[:3], attempts[c[0]], e))
+                    broken = True
+                    inflight.add(done)
+        finally:
+            procs = list((getattr(ex, "_processes", None) or {}).values())
+            ex.shutdown(wait=not broken, cancel_futures=True)
+            if broken:
+                for p_ in procs:
+                    try:
+                        if p_.is_alive():
+                            p_.kill()
+                    except Exception:
+                        pass
+        if broken:
+            restarts += 1
+            # everything that had not been merged goes back to the queue
+            redo = [futs[f] for f in inflight]
+            for c in redo:
+                if attempts.get(c[0], 0) >= 3 or restarts > 8:
+                    total["errors"].append({"detail": "worker died %d times on chunk %s; last notes: %r" % (
+                        attempts.get(c[0], 0), c[:3], total["harness"][-2:])})
+                    fatal = True
+            pending = redo + pending
+        else:
+            break
+    if restarts and not fatal:
+        total["harness"].append("%d worker-pool restart(s); the affected chunks were run again" % restarts)
     total["wall"] = time.time() - t0
     return total
 
